@@ -194,7 +194,8 @@ PROPS["C07"] = dict(
 
 PROPS["C16"] = dict(
     module="UpfVerif.Props.C16",
-    streams=[dict(name="flowdesc", shards_thorough=8, seed_per_shard=True, timeout_thorough=3000)],
+    streams=[dict(name="flowdesc", shards_thorough=8, seed_per_shard=True, timeout_thorough=3000),
+             dict(name="drv", args=["corpus=/verif/corpus/drvmal.lines"], shards=2, shards_thorough=4, seed_per_shard=True)],
     rule="grammar-generated rules (every protocol 0..300 and 'ip', every prefix length 0..40 once; then random rules: hosts, prefixes, any/assigned, port lists "
          "of 1..8 items with ports/ranges at boundaries 0/65535/65536, leading zeros, arbitrary Go white-space runs) + near misses (dropped/duplicated/swapped "
          "tokens, bad octets, empty fields) + arbitrary ASCII and arbitrary bytes + IPv6 literals (outside the model: only 'no fault'); distinct = distinct input strings",
@@ -259,7 +260,8 @@ PROPS["C03"] = dict(
 
 PROPS["C15"] = dict(
     module="UpfVerif.Props.C15",
-    streams=[dict(name="perio", shards=2, shards_thorough=12, seed_per_shard=True, timeout=600, timeout_thorough=3000)],
+    streams=[dict(name="perio", shards=2, shards_thorough=12, seed_per_shard=True, timeout=600, timeout_thorough=3000),
+             dict(name="drv", args=["corpus=/verif/corpus/drvmal.lines"], shards=2, shards_thorough=4, seed_per_shard=True)],
     rule="S-perio: histories on the real perio.Server (1-4 sessions x 1-5 URRs x 1-3 periods of hours, so no real ticker fires): ADD / DEL (registered and unknown) / "
          "injected TIMEOUT events (used and stale periods; query callback answering all / every other URR / nothing / error) / CLOSE, group dump and ticker-goroutine "
          "count after every event; then multi-URR queries through the real Gtp5g.queryMultiURR against the simulated kernel with totals at 0, 1, N-1, N, N+1, 2N-1 ... 12N "
